@@ -2,20 +2,25 @@
 (* C12 - implementation-shaped model of one DissectInstance                     *)
 (* (pkg/matchers/dissect/dissect.go, case.go, pkg/slicepool/intpool.go).        *)
 (*                                                                              *)
-(*  - CompileImpl: the left-to-right pattern compiler that stops at the first   *)
-(*    error it meets;                                                           *)
-(*  - IndexIgnoreCase: the case-insensitive substring search against a          *)
-(*    pre-lowered needle (the four-way switch of case.go);                      *)
+(*  - CompileImpl / IndexIgnoreCase: see DissectOps;                            *)
 (*  - the instance as a state machine: FindSubmatchIndex is a scan loop that    *)
 (*    carves its result slice from an int pool (slabs of SlabRes results; a new *)
 (*    slab is allocated when the current one is used up; nothing is recycled)   *)
-(*    and fills it token by token.  Ghost state: the value every result had     *)
-(*    when it was handed out.                                                   *)
+(*    and fills it token by token.  IntPool.Get is written step by step, one    *)
+(*    step per access to the pool header `s.pool`:                              *)
+(*        get   : if len(s.pool) < n            (read)                          *)
+(*        alloc :     s.pool = make(size)       (write)                         *)
+(*        carve : ret = s.pool[:n]              (read; panics beyond the slab)  *)
+(*        advr  : tmp = s.pool                  (read)                          *)
+(*        advw  : s.pool = tmp[n:]              (write; panics beyond the slab) *)
+(*    so that DissectShared can interleave several instances at this grain.     *)
+(*    Ghost state: the value every result had when it was handed out.           *)
 (*                                                                              *)
 (* TLC checks: the compiler agrees with the abstract syntax (Dissect!Errs /     *)
 (* Compiled), every returned result equals Dissect!Match / MatchFold, handed    *)
-(* out slices are pairwise disjoint and never change afterwards.                *)
-EXTENDS Dissect, TLC
+(* out slices are pairwise disjoint and never change afterwards, Get never      *)
+(* slices beyond its slab.                                                      *)
+EXTENDS DissectOps
 
 CONSTANTS
   PatTexts,   \* the patterns (byte sequences) an instance may be created from; they must compile
@@ -25,77 +30,27 @@ CONSTANTS
   SlabRes     \* results per pool slab (1024 in the code)
 
 -----------------------------------------------------------------------------
-(* the compiler, written like CompileEx: first error wins *)
-RECURSIVE CompileLoop(_, _)
-CompileLoop(rest, acc) ==        \* rest begins with %{
-  LET body == DropFirst(rest, 2)
-      stop == IndexByte(body, RBR)
-  IN IF stop = 0 THEN [err |-> "unclosed", tokens |-> acc]
-     ELSE
-       LET raw   == TakeFirst(body, stop - 1)
-           after == DropFirst(body, stop)
-           pct   == IndexByte(after, PCT)
-           until == IF pct = 0 THEN after ELSE TakeFirst(after, pct - 1)
-           next  == IF pct = 0 THEN <<>> ELSE DropFirst(after, pct - 1)
-           named == raw # <<>> /\ raw[1] = QM
-           skip  == raw = <<>> \/ named
-           name  == IF named THEN Tail(raw) ELSE raw
-           dup   == \E i \in 1..Len(acc) : ~acc[i].skip /\ acc[i].name = name
-       IN IF pct = 1 THEN [err |-> "sequential", tokens |-> acc]
-          ELSE IF ~skip /\ dup THEN [err |-> "conflict", tokens |-> acc]
-          ELSE IF next = <<>> THEN [err |-> "none", tokens |-> Append(acc, Tok(name, until, skip))]
-          ELSE CompileLoop(next, Append(acc, Tok(name, until, skip)))
-
-CompileImpl(text, ic) ==
-  LET i == IndexFrom(text, <<PCT, LBR>>, 1)
-      r == IF i = 0 THEN [err |-> "none", tokens |-> <<>>] ELSE CompileLoop(DropFirst(text, i - 1), <<>>)
-      p == [prefix |-> IF i = 0 THEN text ELSE TakeFirst(text, i - 1), tokens |-> r.tokens]
-  IN [err |-> r.err, p |-> IF ic THEN FoldPat(p) ELSE p]
-
-\* the compiler implements the abstract syntax on every in-domain text
-CompileRefines(text, ic) ==
-  InDomain(text) =>
-    LET c == CompileImpl(text, ic) IN
-    IF Compiles(text) THEN c.err = "none" /\ c.p = (IF ic THEN FoldPat(Compiled(text)) ELSE Compiled(text))
-    ELSE c.err \in Errs(Structure(text))
-
------------------------------------------------------------------------------
-(* case.go: 0-based index of the first case-insensitive occurrence, -1 if none *)
-EqFoldAt(s, low, i) == \A j \in 1..Len(low) : LowerC(s[i + j]) = low[j]      \* i = 0-based offset
-IndexIgnoreCase(s, low) ==
-  LET n == Len(low) IN
-  IF n = 0 THEN 0
-  ELSE IF Len(s) < n THEN -1
-  ELSE IF Len(s) = n THEN (IF EqFoldAt(s, low, 0) THEN 0 ELSE -1)
-  ELSE LET H == {i \in 0..(Len(s) - n) : EqFoldAt(s, low, i)} IN IF H = {} THEN -1 ELSE MinOf(H)
-
-IndexExact(s, sub) == IndexFrom(s, sub, 1) - 1          \* strings.Index
-IndexFn(ic, s, sub) == IF ic THEN IndexIgnoreCase(s, sub) ELSE IndexExact(s, sub)
-
-IndexLaw(s, sub) == IndexIgnoreCase(s, LowerASCII(sub)) = IndexExact(LowerASCII(s), LowerASCII(sub))
-
------------------------------------------------------------------------------
 (* the instance *)
 VARIABLES
   inst,     \* CompileEx + CreateInstance: pattern text, flag, compiled pattern, derived sizes (never changes)
   slabs,    \* all slabs ever allocated: sequence of [1..SlabSize -> Int]
-  used,     \* ints already carved from the newest slab
-  pc,       \* "idle" | "prefix" | "tok" | "fin"
+  hdr,      \* the pool header s.pool: [s, u] = slab it points into, ints of that slab already carved
+  loc,      \* Get's temporary: the header read by `advr`
+  pc,       \* "idle" | "prefix" | "get" | "alloc" | "carve" | "advr" | "advw" | "r0" | "tok" | "panic"
   line,     \* argument of the call in progress
   start,    \* scan position (0-based, like the code)
   k,        \* index of the token being processed
   idx,      \* next free position in ret (0-based)
   ret,      \* handle of the slice being filled: [s, o] = slab, offset
-  handed,   \* handles returned to the caller so far (nil results are <<>>)
+  handed,   \* handles returned to the caller so far (nil results are NoHandle)
   vals,     \* ghost: the value of every result when it was returned
   args      \* ghost: the line of every finished call
 P        == inst.p
 IC       == inst.ic
 RLen     == inst.rlen            \* groupCount*2 + 2
 SlabSize == inst.rlen * SlabRes
-vars == <<inst, slabs, used, pc, line, start, k, idx, ret, handed, vals, args>>
+vars == <<inst, slabs, hdr, loc, pc, line, start, k, idx, ret, handed, vals, args>>
 
-NoHandle == [s |-> 0, o |-> 0]
 ZeroSlab == [i \in 1..SlabSize |-> 0]
 ReadH(h) == IF h = NoHandle THEN Nil ELSE [i \in 1..RLen |-> slabs[h.s][h.o + i]]
 Write(h, i, v) == [slabs EXCEPT ![h.s][h.o + i + 1] = v]        \* ret[i] = v, i 0-based
@@ -105,33 +60,66 @@ Init ==
        LET c == CompileImpl(text, ic) IN
        /\ inst = [text |-> text, ic |-> ic, p |-> c.p, rlen |-> 2 * Groups(c.p) + 2, err |-> c.err,
                   abs |-> Compiled(text)]
-       /\ slabs = <<[i \in 1..((2 * Groups(c.p) + 2) * SlabRes) |-> 0]>> /\ used = 0 /\ pc = "idle" /\ line = <<>> /\ start = 0 /\ k = 1 /\ idx = 2
+       \* CreateInstance: NewIntPool allocates the first slab
+       /\ slabs = <<[i \in 1..((2 * Groups(c.p) + 2) * SlabRes) |-> 0]>>
+  /\ hdr = [s |-> 1, u |-> 0] /\ loc = NoHdr
+  /\ pc = "idle" /\ line = <<>> /\ start = 0 /\ k = 1 /\ idx = 2
   /\ ret = NoHandle /\ handed = <<>> /\ vals = <<>> /\ args = <<>>
 
 Call(l) ==
   /\ pc = "idle" /\ Len(handed) < MaxCalls
   /\ line' = l /\ pc' = "prefix"
-  /\ UNCHANGED <<inst, slabs, used, start, k, idx, ret, handed, vals, args>>
+  /\ UNCHANGED <<inst, slabs, hdr, loc, start, k, idx, ret, handed, vals, args>>
 
 ReturnNil ==
   /\ UNCHANGED inst /\ pc' = "idle" /\ ret' = NoHandle
   /\ handed' = Append(handed, NoHandle) /\ vals' = Append(vals, Nil) /\ args' = Append(args, line)
 
-\* locate the prefix, take the result slice, ret[0] = start of the prefix
+\* locate the prefix
 Prefix ==
   /\ pc = "prefix"
   /\ LET i == IF P.prefix = <<>> THEN 0 ELSE IndexFn(IC, line, P.prefix) IN
-     IF i < 0 THEN ReturnNil /\ UNCHANGED <<slabs, used, line, start, k, idx>>
-     ELSE \* ret := groupPool.Get(RLen): carve from the newest slab; when it is used up allocate a
-          \* fresh slab (the old one stays with the results carved from it - nothing is recycled)
-          LET fresh == SlabSize - used < RLen
-              h     == IF fresh THEN [s |-> Len(slabs) + 1, o |-> 0] ELSE [s |-> Len(slabs), o |-> used]
-              base  == IF fresh THEN Append(slabs, ZeroSlab) ELSE slabs
-          IN
-            /\ used' = (IF fresh THEN RLen ELSE used + RLen)
-            /\ slabs' = [base EXCEPT ![h.s][h.o + 1] = i]          \* ret[0] = start of the prefix
-            /\ ret' = h /\ start' = i + Len(P.prefix) /\ k' = 1 /\ idx' = 2
-            /\ pc' = "tok" /\ UNCHANGED <<inst, line, handed, vals, args>>
+     IF i < 0 THEN ReturnNil /\ UNCHANGED <<slabs, hdr, loc, line, start, k, idx>>
+     ELSE /\ start' = i + Len(P.prefix) /\ pc' = "get"
+          /\ UNCHANGED <<inst, slabs, hdr, loc, line, k, idx, ret, handed, vals, args>>
+
+\* ret := groupPool.Get(RLen), one step per access to the pool header
+GetChk ==
+  /\ pc = "get"
+  /\ pc' = IF SlabSize - hdr.u < RLen THEN "alloc" ELSE "carve"
+  /\ UNCHANGED <<inst, slabs, hdr, loc, line, start, k, idx, ret, handed, vals, args>>
+
+\* a fresh slab; the old one stays with the results carved from it - nothing is recycled
+GetAlloc ==
+  /\ pc = "alloc"
+  /\ slabs' = Append(slabs, ZeroSlab) /\ hdr' = [s |-> Len(slabs) + 1, u |-> 0]
+  /\ pc' = "carve"
+  /\ UNCHANGED <<inst, loc, line, start, k, idx, ret, handed, vals, args>>
+
+GetCarve ==
+  /\ pc = "carve"
+  /\ IF SlabSize - hdr.u < RLen THEN pc' = "panic" /\ ret' = ret        \* slice bounds out of range
+     ELSE pc' = "advr" /\ ret' = [s |-> hdr.s, o |-> hdr.u]
+  /\ UNCHANGED <<inst, slabs, hdr, loc, line, start, k, idx, handed, vals, args>>
+
+GetAdvR ==
+  /\ pc = "advr"
+  /\ loc' = hdr /\ pc' = "advw"
+  /\ UNCHANGED <<inst, slabs, hdr, line, start, k, idx, ret, handed, vals, args>>
+
+GetAdvW ==
+  /\ pc = "advw"
+  /\ IF loc.u + RLen > SlabSize THEN pc' = "panic" /\ hdr' = hdr
+     ELSE pc' = "r0" /\ hdr' = [loc EXCEPT !.u = @ + RLen]
+  /\ loc' = NoHdr
+  /\ UNCHANGED <<inst, slabs, line, start, k, idx, ret, handed, vals, args>>
+
+\* ret[0] = start of the prefix
+Ret0 ==
+  /\ pc = "r0"
+  /\ slabs' = Write(ret, 0, start - Len(P.prefix))
+  /\ k' = 1 /\ idx' = 2 /\ pc' = "tok"
+  /\ UNCHANGED <<inst, hdr, loc, line, start, ret, handed, vals, args>>
 
 \* one iteration of the token loop
 TokStep ==
@@ -139,14 +127,14 @@ TokStep ==
   /\ LET t    == P.tokens[k]
          rest == DropFirst(line, start)
          eo   == IF t.until = <<>> THEN Len(rest) ELSE IndexFn(IC, rest, t.until)
-     IN IF eo < 0 THEN ReturnNil /\ UNCHANGED <<slabs, used, line, start, k, idx>>     \* the carved slice is abandoned
+     IN IF eo < 0 THEN ReturnNil /\ UNCHANGED <<slabs, hdr, loc, line, start, k, idx>>     \* the carved slice is abandoned
         ELSE /\ slabs' = IF t.skip THEN slabs
                          ELSE [slabs EXCEPT ![ret.s][ret.o + idx + 1] = start,
                                             ![ret.s][ret.o + idx + 2] = start + eo]
              /\ idx' = IF t.skip THEN idx ELSE idx + 2
              /\ start' = start + eo + Len(t.until)
              /\ k' = k + 1
-             /\ UNCHANGED <<inst, used, pc, line, ret, handed, vals, args>>
+             /\ UNCHANGED <<inst, hdr, loc, pc, line, ret, handed, vals, args>>
 
 \* ret[1] = start; return ret
 Finish ==
@@ -156,17 +144,20 @@ Finish ==
   /\ handed' = Append(handed, ret)
   /\ vals' = Append(vals, [i \in 1..RLen |-> slabs'[ret.s][ret.o + i]])
   /\ args' = Append(args, line)
-  /\ UNCHANGED <<inst, used, line, start, k, idx>>
+  /\ UNCHANGED <<inst, hdr, loc, line, start, k, idx>>
 
-Next == (\E l \in Lines : Call(l)) \/ Prefix \/ TokStep \/ Finish
+Get  == GetChk \/ GetAlloc \/ GetCarve \/ GetAdvR \/ GetAdvW
+Next == (\E l \in Lines : Call(l)) \/ Prefix \/ Get \/ Ret0 \/ TokStep \/ Finish
 Spec == Init /\ [][Next]_vars
 
 -----------------------------------------------------------------------------
 (* invariants *)
 TypeOK ==
   /\ inst.err = "none"
-  /\ used \in 0..SlabSize /\ used % RLen = 0
+  /\ hdr.s = Len(slabs) /\ hdr.u \in 0..SlabSize /\ hdr.u % RLen = 0
   /\ Len(handed) = Len(vals) /\ Len(vals) = Len(args)
+
+NoPanic == pc # "panic"
 
 \* every result the caller holds still reads as it did when it was returned
 Lifetime == \A i \in 1..Len(handed) : ReadH(handed[i]) = vals[i]
